@@ -1,5 +1,7 @@
 package base
 
+import "strings"
+
 type DefinedClass struct {
 	frame string
 	class string
@@ -50,4 +52,27 @@ func IsClassDefined(frames []string, class string) bool {
 func SetDefinedClass(frame, class string) {
 	key := DefinedClass{frame: frame, class: class}
 	DefinedClassTable[key] = true
+}
+
+// ResolveClassFrame looks an unqualified class or module name up lexically:
+// in the given frame first, then in each enclosing frame, then at top level.
+// It returns the frame the name is defined in ("" when it is not found).
+func ResolveClassFrame(frame string, class string) string {
+	for {
+		if DefinedClassTable[DefinedClass{frame: frame, class: class}] {
+			return frame
+		}
+
+		if frame == "" {
+			return ""
+		}
+
+		idx := strings.LastIndex(frame, "::")
+		if idx < 0 {
+			frame = ""
+			continue
+		}
+
+		frame = frame[:idx]
+	}
 }
